@@ -213,4 +213,55 @@ theorem inv_openNew {bpow aunit hdr bm : Nat} {strict : Bool} (hbp : bpow ≠ 0)
   · exact hal
   · exact roundup_mod _ _
 
+/-- A growing `reallocate` that succeeds: the blocks of the new region were not held by anybody before the call —
+    in particular they are disjoint from the old region, which is still allocated while `pool.copy` runs —
+    and the region is at least as long as asked. -/
+theorem reallocate_grow_fresh (hr : Heur) {s : St} (hI : Inv s) (nlenB addrB olenB : Nat) (f : Flags)
+    (hgrow : olenB / bsz s < roundup nlenB (bsz s) / bsz s)
+    (hok : (reallocate hr s nlenB addrB olenB f).2.1 = .ok) :
+    ∃ naddr sp, (reallocate hr s nlenB addrB olenB f).2.2.1 = naddr * bsz s ∧
+      (reallocate hr s nlenB addrB olenB f).2.2.2.1 = sp * bsz s ∧ roundup nlenB (bsz s) / bsz s ≤ sp ∧
+      ∀ i, naddr ≤ i → i < naddr + sp → ¬ UserUsed s i := by
+  unfold reallocate at hok ⊢
+  generalize addrB / bsz s = oaddr at hgrow hok ⊢
+  generalize olenB / bsz s = olen at hgrow hok ⊢
+  generalize roundup nlenB (bsz s) / bsz s = nlen at hgrow hok ⊢
+  split at hok
+  · cases hok
+  · rename_i hal
+    rw [if_neg hal]
+    simp only at hok ⊢
+    have hne : ¬ nlen = olen := by omega
+    rw [if_neg hne] at hok ⊢
+    split at hok
+    · cases hok
+    · rename_i hg
+      rw [if_neg hg]
+      split at hok
+      · cases hok
+      · rename_i hst
+        rw [if_neg hst]
+        have hnlt : ¬ nlen < olen := by omega
+        rw [if_neg hnlt] at hok ⊢
+        have hnl : 0 < nlen := by omega
+        obtain ⟨a, b, c, d⟩ := allocLw_spec hr hnl oaddr f allocFuel s hI
+        generalize allocLw hr s nlen oaddr f allocFuel = r at a b c d hok ⊢
+        obtain ⟨s1, rc, naddr, sp⟩ := r
+        simp only at a b c d hok ⊢
+        by_cases hrc : rc = .ok
+        · subst hrc
+          have hA := d rfl
+          have hne2 : ¬ (Rc.ok ≠ Rc.ok) := by simp
+          rw [if_neg hne2] at hok ⊢
+          generalize (if olen = 0 then (s1, Rc.ok) else deallocLw s1 oaddr olen) = r2 at hok ⊢
+          by_cases h2 : r2.2 = .ok
+          · have hne3 : ¬ (r2.2 ≠ Rc.ok) := by simp [h2]
+            rw [if_neg hne3]
+            exact ⟨naddr, sp, rfl, rfl, hA.len_ge, fun i h1 h2 => (hA.fresh i h1 h2).1⟩
+          · rw [if_pos h2] at hok
+            exact absurd hok h2
+        · rw [if_pos hrc] at hok
+          exact absurd hok hrc
+
+
 end IwModel.Fsm
